@@ -76,6 +76,24 @@ Fixpoint has_dup (l : list Q) : bool :=    (* sorted input *)
   | a :: ((b :: _) as t) => Qeq_bool a b || has_dup t
   | _ => false
   end.
+(* the cleaning loop of JordanCurve.split drops a pair whose node is within 1e-6 of the previous kept
+   node of the same segment (sorted input) *)
+Fixpoint drop_repeated_from (prev : nat * Q) (l : list (nat * Q)) : list (nat * Q) :=
+  match l with
+  | [] => []
+  | p :: t =>
+    if Nat.eqb (fst prev) (fst p) && Qlt_bool (Qabs' (snd p - snd prev)) tol6
+    then drop_repeated_from prev t
+    else p :: drop_repeated_from p t
+  end.
+Definition drop_repeated (l : list (nat * Q)) : list (nat * Q) :=
+  match l with
+  | [] => []
+  | p :: t => p :: drop_repeated_from p t
+  end.
+(* the (index, node) pairs JordanCurve.split really uses *)
+Definition split_pairs (indexs : list nat) (nodes : list Q) : list (nat * Q) :=
+  drop_repeated (filter (fun iu => negb (near01 (snd iu))) (sort_by pair_le (combine indexs nodes))).
 Definition split_segment (s : seg) (nodes : list Q) : res (list seg) :=
   if has_dup nodes then Err EIndex          (* pynurbs raises on repeated nodes *)
   else Ok (map seg_clean (split_many nodes s)).
@@ -83,7 +101,7 @@ Definition split (j : jordan) (indexs : list nat) (nodes : list Q) : res jordan 
   do _ <- assert_ (forallb (fun i => (i <? length j)%nat) indexs);
   do _ <- assert_ (forallb (fun u => negb (out01 u)) nodes);
   do _ <- assert_ (Nat.eqb (length indexs) (length nodes));
-  let pairs := filter (fun iu => negb (near01 (snd iu))) (sort_by pair_le (combine indexs nodes)) in
+  let pairs := split_pairs indexs nodes in
   do pieces <- mapM (fun is_ =>
                   let '(i, s) := is_ in
                   let ns := map snd (filter (fun iu => Nat.eqb (fst iu) i) pairs) in
